@@ -230,6 +230,11 @@ func (s *storage) SetRaw(ctx context.Context, keyValue ...*spacesyncproto.StoreK
 			keyValues[i].KeyPeerId = ""
 			continue
 		}
+		// the signing account must have been able to write at the acl record the value cites
+		if !canWriteAt(state, keyValues[i].AclId, keyValues[i].Identity) {
+			keyValues[i].KeyPeerId = ""
+			continue
+		}
 	}
 	s.aclList.RUnlock()
 	keyValues = slice.DiscardFromSlice(keyValues, func(value innerstorage.KeyValue) bool {
@@ -251,6 +256,15 @@ func (s *storage) SetRaw(ctx context.Context, keyValue ...*spacesyncproto.StoreK
 		log.Warn("failed to index for keys", zap.Error(indexErr))
 	}
 	return nil
+}
+
+func canWriteAt(state *list.AclState, aclId, account string) bool {
+	identity, err := crypto.DecodeAccountAddress(account)
+	if err != nil {
+		return false
+	}
+	perms, err := state.PermissionsAtRecord(aclId, identity)
+	return err == nil && perms.CanWrite()
 }
 
 func (s *storage) GetAll(ctx context.Context, key string, get func(decryptor Decryptor, values []innerstorage.KeyValue) error) (err error) {
